@@ -1017,6 +1017,21 @@ pub fn persist_set() -> Vec<Program> {
         ext: vec![0],
         root0: None,
     });
+    // two memos of the persisted function reach one shared non-persisted function (which alone
+    // reads cell 1) through different non-persisted intermediates
+    v.push(Program {
+        name: "persist-shared-nonpersisted".into(),
+        cells: vec![(0, Dur::Low), (1, Dur::Low)],
+        nodes: vec![
+            NodeDef::new(Kind::Lru, cell(1)),
+            NodeDef::new(Kind::Lru, Ex::add(call(0), k(1))),
+            NodeDef::new(Kind::Lru, Ex::add(call(0), k(2))),
+            NodeDef::new(Kind::Ev, Ex::add(call(1), cell(0))),
+            NodeDef::new(Kind::Ev, Ex::add(call(2), k(4))),
+        ],
+        ext: vec![0],
+        root0: None,
+    });
     v
 }
 
